@@ -9,7 +9,7 @@ CLAIMED = {
  "C02": ("Every shape within the bound x every target subset x 2 modes x 3 actions x every digest order (+ two-pass obscuring, + whole-envelope forms): root digest and every surviving position's digest unchanged.", "DESIGN.md 4 (C02)"),
  "C03": ("Same space as C02: position-by-position against reference elision semantics written from the documentation; residue of hidden leaf markers in the serialization; unelide accepts exactly the digest-equal envelope.", "DESIGN.md 4 (C03)"),
  "C04": ("Every sequence of 2 operations out of 26 (3 out of 12 structural ones; thorough: 3 of all / 4 structural) from 13 start envelopes x every argument choice x every digest order: after each step the result is well-formed, canonical under the path condition, stored digests equal recomputed ones, bytes accepted by an independent grammar recogniser, receiver unchanged.", "DESIGN.md 4 (C04)"),
- "C05": ("Every shape within the bound x 0-2 obscured positions x every digest order: CBOR / UR / untagged round trips identical, same case and digest at every position, byte-identical re-encoding; 34 leaf values (catalogue).", "DESIGN.md 4 (C05)"),
+ "C05": ("Every shape within the bound x 0-2 obscured positions x every digest order: every public encode / decode route (CBOR bytes, tagged / untagged CBOR value, TryFrom<CBOR>, UR value and string) returns an identical envelope, same case and digest at every position, byte-identical re-encoding; also after every single operation; 48 leaf values (catalogue).", "DESIGN.md 4 (C05)"),
  "C06": ("Every single (thorough: double) structural mutation of the CBOR tree of every valid encoding within the bound x every digest order: decode is Err, or Ok with re-encoding equal to the input, and never Ok on input an independent grammar recogniser rejects; 19 top-level / byte-level cases. Byte-level mutation below the CBOR tree is outside.", "DESIGN.md 4 (C06)"),
  "C07": ("For every subject case, multiset of <=4 (quick) / <=5 (thorough) assertions of 4/6 kinds, every insertion permutation and every digest order: byte-identical result, idempotent add (also of obscured copies), add/remove inverse, wrap/unwrap inverse, receivers untouched, digest equals the specification's. Collections part is concrete execution of dcbor's ordering.", "DESIGN.md 4 (C07)"),
  "C08": ("Every shape within the bound x encrypt/decrypt forms x every digest order: identical round trip, digest kept, wrong key refused, second encryption refused (also after adding assertions); every (content A, declared digest B) mismatch constructible by a key holder is rejected; single-bit tampering at 16 positions (concrete).", "DESIGN.md 4 (C08)"),
@@ -17,8 +17,8 @@ CLAIMED = {
  "C10": ("Every recipient list of length 1..3 over 4 key pairs (duplicates) x 3 forms x each listed and unlisted private key x every digest order (which hasRecipient assertion is tried first is the hash's choice); wrap-and-encrypt and seal/unseal with right / wrong keys over scheme pairs.", "DESIGN.md 4 (C10)"),
  "C12": ("Every shape within the bound x every target set of <=2 (3) digests incl. nested / root / multi-position / absent x every digest order: completeness, acceptance by a root-only verifier, minimal disclosure against harness-computed paths, soundness against other target sets, thinned proofs, other roots, enclosing envelopes.", "DESIGN.md 4 (C12)"),
  "C13": ("Every shape within the bound + 4 payload kinds x compress / uncompress forms and every chain of 3 operations x every digest order: identical round trip, same digest at every step, idempotence, compressed element as subject; mis-declared digest rejected; 6 corruptions (concrete).", "DESIGN.md 4 (C13)"),
- "C14": ("Every ordered pair (and triple on smaller shapes) of variants {original, decoded copy, unrelated, other leaves, every single / double obscuration under each action} x every digest order: equivalence iff digest equality, == iff identical, identical iff equivalent and same harness-computed pattern, reflexive / symmetric / transitive, preserved by encode/decode.", "DESIGN.md 4 (C14)"),
- "C15": ("Every shape within the bound x both walk modes (sequence, level, edge, parent threading) x digests(limit) for every limit x lookup family with none / one / several matches incl. elided predicates and decorated assertions x every digest order; typed extraction catalogue.", "DESIGN.md 4 (C15)"),
+ "C14": ("Every ordered pair (and triple on smaller shapes) of variants {original, decoded copy, unrelated, other leaves, every single / double obscuration under each action} x every digest order: equivalence iff digest equality, == iff identical, identical iff equivalent and same harness-computed pattern, reflexive / symmetric / transitive, preserved by encode/decode (4 decode routes over 22 unusual leaf values, catalogue).", "DESIGN.md 4 (C14)"),
+ "C15": ("Every shape within the bound x both walk modes (sequence, level, edge, parent threading) x digests(limit) for every limit x lookup family with none / one / several matches incl. elided predicates and decorated assertions x every digest order; typed extraction catalogue through both the extract_* and the TryFrom<Envelope> route.", "DESIGN.md 4 (C15)"),
  "C16": ("~330 receiver envelopes (plain, obscured, decorated, junk / elided / duplicated objects under 14 well-known predicates, decoder-only shapes) x 60 operation groups covering every public entry point x argument choices x every digest order: any panic is a violation.", "DESIGN.md 4 (C16)"),
  "C17": ("SymOrd: shapes + envelopes of 100..5000 bytes x 6 salting operations x RNG pinned to the ends of its range x every digest order: content unchanged, exactly one salt assertion, length inside the documented range computed from the real serialized size; salted assertions. Kani/CBMC: the length arithmetic of the pinned dependency for every size in the stated windows and every RNG word.", "DESIGN.md 3, 4 (C17)"),
  "C18": ("Expression / Request / Response / Event over a catalogue of functions, parameters, values, notes and dates x expected-function checks x malformed variants x direct and through bytes x every digest order (parameters and metadata are assertions, so their order is the hash's).", "DESIGN.md 4 (C18)"),
